@@ -71,11 +71,9 @@ Proof.
     cbn [list_ascii_of_string map forallb]. rewrite H. reflexivity.
 Qed.
 
-Lemma str_of_Z_legal z : xml_legal (str_of_Z z) = true /\ no_cr (str_of_Z z) = true.
+Lemma str_of_Z_legal z : xml_legal (str_of_Z z) = true.
 Proof.
-  pose proof (str_of_Z_chars z) as H. split.
-  - revert H. apply forallb_impl. intros x Hx. apply dec_char_legal, Hx.
-  - revert H. apply forallb_impl. intros x Hx. apply dec_char_legal, Hx.
+  pose proof (str_of_Z_chars z) as H. revert H. apply forallb_impl. intros x Hx. apply dec_char_legal, Hx.
 Qed.
 
 Lemma text_of_legal v : val_legal v = true -> xml_legal (text_of v) = true.
@@ -83,35 +81,12 @@ Proof.
   destruct v as [s|z|b]; simpl; intro H; [exact H| apply str_of_Z_legal | destruct b; reflexivity].
 Qed.
 
-Lemma text_of_norm v : val_legal v = true -> eol_norm (text_of v) = text_of (norm_val v).
-Proof.
-  destruct v as [s|z|b]; simpl; intro H; [reflexivity| |destruct b; reflexivity].
-  apply eol_norm_id; apply str_of_Z_legal.
-Qed.
-
-Lemma ty_of_norm v : ty_of (norm_val v) = ty_of v.
-Proof. destruct v; reflexivity. Qed.
-
-Lemma norm_val_legal v : val_legal v = true -> val_legal (norm_val v) = true.
-Proof. destruct v; simpl; auto. apply eol_norm_legal. Qed.
-
-Lemma norm_val_id v : val_legal v = true -> val_no_cr v = true -> norm_val v = v.
-Proof. destruct v; simpl; intros L C; [f_equal; apply eol_norm_id; assumption|reflexivity|reflexivity]. Qed.
-
-Lemma norm_val_idem v : norm_val (norm_val v) = norm_val v.
-Proof. destruct v; simpl; [f_equal; apply eol_norm_idem|reflexivity|reflexivity]. Qed.
-
 (* the journey of a value's text from the writer to the reader *)
 Theorem value_roundtrip v : val_legal v = true ->
-  match text_trip (text_of v) with Some t => read_value (ty_of v) t | None => None end = Some (norm_val v).
-Proof.
-  intro L. rewrite text_trip_legal by (apply text_of_legal, L).
-  rewrite text_of_norm by exact L. rewrite <- (ty_of_norm v). apply read_value_text.
-Qed.
-
-Theorem value_roundtrip_no_cr v : val_legal v = true -> val_no_cr v = true ->
   match text_trip (text_of v) with Some t => read_value (ty_of v) t | None => None end = Some v.
-Proof. intros L C. rewrite value_roundtrip by exact L. f_equal. apply norm_val_id; assumption. Qed.
+Proof.
+  intro L. rewrite text_trip_legal by (apply text_of_legal, L). apply read_value_text.
+Qed.
 
 (* ---------- the key table ---------- *)
 Lemma index_of_nth k tbl : forall i, index_of k tbl = Some i -> nth_error tbl i = Some k.
@@ -279,66 +254,50 @@ Proof.
 Qed.
 
 (* ---------- text journeys over a whole document ---------- *)
-Definition vmap (h : pval -> pval) (ps : props) : props := map (fun kv => (fst kv, h (snd kv))) ps.
-
-Lemma tr_data_spec (f : str -> option str) (h : pval -> pval) T sc ds : forall ps,
-  (forall kv, In kv ps -> f (text_of (snd kv)) = Some (text_of (h (snd kv))) /\ ty_of (h (snd kv)) = ty_of (snd kv)) ->
-  Forall2 (dspec T sc) ds ps ->
-  exists ds', opt_list (tr_delem f) ds = Some ds' /\ Forall2 (dspec T sc) ds' (vmap h ps).
-Proof.
-  induction ds as [|d ds IH]; intros ps Hf F; inversion F; subst.
-  - exists []. split; [reflexivity|constructor].
-  - destruct (IH l') as (ds' & E & F'); [intros kv Hkv; apply Hf; right; exact Hkv|assumption|].
-    destruct H1 as [K X]. destruct (Hf y (or_introl eq_refl)) as [Hy Ty].
-    exists ({| d_key := d_key d; d_text := text_of (h (snd y)) |} :: ds'). split.
-    + simpl. unfold tr_delem at 1. rewrite X, Hy, E. reflexivity.
-    + simpl. constructor; [|exact F']. split; simpl; [rewrite Ty; exact K|reflexivity].
-Qed.
-
-Lemma norm_props_vmap ps : norm_props ps = vmap norm_val ps.
-Proof. reflexivity. Qed.
-
 Definition props_legal (ps : props) : Prop := forall kv, In kv ps -> val_legal (snd kv) = true.
 Definition graph_legal (g : nxg) : Prop :=
   (forall n, In n (g_nodes g) -> props_legal (snd n)) /\ (forall e, In e (g_edges g) -> props_legal (snd e)).
 
-Lemma text_in_value v : val_legal v = true ->
-  text_in (text_of v) = Some (text_of (norm_val v)) /\ ty_of (norm_val v) = ty_of v.
+Lemma delem_eta d : {| d_key := d_key d; d_text := d_text d |} = d.
+Proof. destruct d; reflexivity. Qed.
+Lemma dnode_eta n : {| n_id := n_id n; n_labels := n_labels n; n_data := n_data n |} = n.
+Proof. destruct n; reflexivity. Qed.
+Lemma dedge_eta e : {| e_src := e_src e; e_tgt := e_tgt e; e_label := e_label e; e_data := e_data e |} = e.
+Proof. destruct e; reflexivity. Qed.
+Lemma doc_eta d : {| d_keys := d_keys d; d_nodes := d_nodes d; d_edges := d_edges d |} = d.
+Proof. destruct d; reflexivity. Qed.
+
+Lemma Forall2_In_l {A B} (R : A -> B -> Prop) l l2 x : Forall2 R l l2 -> In x l -> exists y, In y l2 /\ R x y.
 Proof.
-  intro L. split; [|apply ty_of_norm].
-  rewrite text_in_legal by (apply text_of_legal, L). f_equal. apply text_of_norm, L.
+  intro F. induction F as [|a b l l2 Hab _ IH]; intros [].
+  - subst. exists b. split; [left; reflexivity|exact Hab].
+  - destruct (IH H) as (y & Hy & Ry). exists y. split; [right; exact Hy|exact Ry].
 Qed.
 
-Lemma transport_in_spec d g : doc_spec no_lab no_lab d g -> graph_legal g ->
-  exists d', transport text_in no_attr d = Some d' /\ d_keys d' = d_keys d
-             /\ doc_spec no_lab no_lab d' (norm_graph g).
+(* a journey that returns every legal text unchanged leaves the data elements of legal values alone *)
+Lemma tr_data_id (f : str -> option str) T sc ds ps :
+  (forall t, xml_legal t = true -> f t = Some t) -> props_legal ps -> Forall2 (dspec T sc) ds ps ->
+  opt_list (tr_delem f) ds = Some ds.
+Proof.
+  intros Hf L F. apply opt_list_id. intros d Hd.
+  destruct (Forall2_In_l _ _ _ _ F Hd) as (kv & Hkv & (_ & X)).
+  unfold tr_delem. rewrite X, Hf by (apply text_of_legal, L, Hkv). rewrite <- X. rewrite delem_eta. reflexivity.
+Qed.
+
+Lemma transport_in_id d g : doc_spec no_lab no_lab d g -> graph_legal g ->
+  transport text_in no_attr d = Some d.
 Proof.
   intros [FN FE] [LN LE]. unfold transport.
-  assert (HN : exists ns', opt_list (tr_node text_in no_attr) (d_nodes d) = Some ns'
-                           /\ Forall2 (nspec (d_keys d) no_lab) ns' (g_nodes (norm_graph g))).
-  { clear FE LE. simpl. revert LN. induction FN as [|n gn ns gns Hn _ IH]; intro LN.
-    - exists []. split; [reflexivity|constructor].
-    - destruct IH as (ns' & E & F'); [intros m Hm; apply LN; right; exact Hm|].
-      destruct Hn as (I & L & D).
-      destruct (tr_data_spec text_in norm_val _ _ _ (snd gn)
-                  (fun kv Hkv => text_in_value _ (LN gn (or_introl eq_refl) kv Hkv)) D) as (ds' & E2 & F2).
-      exists ({| n_id := n_id n; n_labels := None; n_data := ds' |} :: ns'). split.
-      + simpl. unfold tr_node at 1. rewrite L. unfold no_lab. simpl. rewrite E2, E. reflexivity.
-      + simpl. constructor; [|exact F']. split; [exact I|]. split; [reflexivity|exact F2]. }
-  assert (HE : exists es', opt_list (tr_edge text_in no_attr) (d_edges d) = Some es'
-                           /\ Forall2 (espec (d_keys d) no_lab) es' (g_edges (norm_graph g))).
-  { clear FN LN HN. simpl. revert LE. induction FE as [|e ge es ges He _ IH]; intro LE.
-    - exists []. split; [reflexivity|constructor].
-    - destruct IH as (es' & E & F'); [intros m Hm; apply LE; right; exact Hm|].
-      destruct He as (I1 & I2 & L & D).
-      destruct (tr_data_spec text_in norm_val _ _ _ (snd ge)
-                  (fun kv Hkv => text_in_value _ (LE ge (or_introl eq_refl) kv Hkv)) D) as (ds' & E2 & F2).
-      exists ({| e_src := e_src e; e_tgt := e_tgt e; e_label := None; e_data := ds' |} :: es'). split.
-      + simpl. unfold tr_edge at 1. rewrite L. unfold no_lab. simpl. rewrite E2, E. reflexivity.
-      + simpl. constructor; [|exact F']. destruct ge as [[u v] ps]. simpl in *.
-        split; [exact I1|]. split; [exact I2|]. split; [reflexivity|exact F2]. }
-  destruct HN as (ns' & EN & FN'). destruct HE as (es' & EE & FE').
-  rewrite EN, EE. eexists. split; [reflexivity|]. split; [reflexivity|]. split; simpl; assumption.
+  rewrite (opt_list_id (tr_node text_in no_attr) (d_nodes d)).
+  - rewrite (opt_list_id (tr_edge text_in no_attr) (d_edges d)); [rewrite doc_eta; reflexivity|].
+    intros e He. destruct (Forall2_In_l _ _ _ _ FE He) as (ge & Hge & (_ & _ & L & D)).
+    unfold tr_edge. rewrite L. unfold no_lab at 1. simpl.
+    rewrite (tr_data_id text_in _ _ _ _ text_in_legal (LE _ Hge) D).
+    replace None with (e_label e) by exact L. rewrite dedge_eta. reflexivity.
+  - intros n Hn. destruct (Forall2_In_l _ _ _ _ FN Hn) as (gn & Hgn & (_ & L & D)).
+    unfold tr_node. rewrite L. unfold no_lab at 1. simpl.
+    rewrite (tr_data_id text_in _ _ _ _ text_in_legal (LN _ Hgn) D).
+    replace None with (n_labels n) by exact L. rewrite dnode_eta. reflexivity.
 Qed.
 
 (* ---------- networkx_to_neo4j ---------- *)
@@ -447,23 +406,9 @@ Proof.
 Qed.
 
 (* ---------- the way out: lxml writes, the file is read, expat parses: nothing changes ---------- *)
-Lemma delem_eta d : {| d_key := d_key d; d_text := d_text d |} = d.
-Proof. destruct d; reflexivity. Qed.
-
-Lemma Forall2_In_l {A B} (R : A -> B -> Prop) l l2 x : Forall2 R l l2 -> In x l -> exists y, In y l2 /\ R x y.
-Proof.
-  intro F. induction F as [|a b l l2 Hab _ IH]; intros [].
-  - subst. exists b. split; [left; reflexivity|exact Hab].
-  - destruct (IH H) as (y & Hy & Ry). exists y. split; [right; exact Hy|exact Ry].
-Qed.
-
 Lemma tr_data_out T sc ds ps : props_legal ps -> Forall2 (dspec T sc) ds ps ->
   opt_list (tr_delem text_out) ds = Some ds.
-Proof.
-  intros L F. apply opt_list_id. intros d Hd.
-  destruct (Forall2_In_l _ _ _ _ F Hd) as (kv & Hkv & (_ & X)).
-  unfold tr_delem. rewrite X, text_out_legal by (apply text_of_legal, L, Hkv). rewrite <- X. rewrite delem_eta. reflexivity.
-Qed.
+Proof. apply tr_data_id, text_out_legal. Qed.
 
 Lemma node_lab_legal ps : props_legal ps -> match node_lab ps with Some l => xml_legal l = true | None => True end.
 Proof.
@@ -491,13 +436,6 @@ Qed.
 Lemma tr_attr_out (a : option str) : match a with Some l => xml_legal l = true | None => True end ->
   tr_attr attr_out a = Some a.
 Proof. destruct a as [l|]; simpl; intro H; [rewrite attr_out_legal by exact H|]; reflexivity. Qed.
-
-Lemma dnode_eta n : {| n_id := n_id n; n_labels := n_labels n; n_data := n_data n |} = n.
-Proof. destruct n; reflexivity. Qed.
-Lemma dedge_eta e : {| e_src := e_src e; e_tgt := e_tgt e; e_label := e_label e; e_data := e_data e |} = e.
-Proof. destruct e; reflexivity. Qed.
-Lemma doc_eta d : {| d_keys := d_keys d; d_nodes := d_nodes d; d_edges := d_edges d |} = d.
-Proof. destruct d; reflexivity. Qed.
 
 Lemma transport_out_id d g : doc_spec node_lab edge_lab d g -> graph_legal g ->
   transport text_out attr_out d = Some d.
@@ -588,155 +526,35 @@ Proof.
   split; apply Forall_forall; intros x Hx; [apply (HN x Hx)|apply (HE x Hx)].
 Qed.
 
-(* normalisation keeps a graph well formed *)
-Lemma pget_vmap h k ps : pget k (vmap h ps) = option_map h (pget k ps).
-Proof.
-  induction ps as [|[k' v] r IH]; [reflexivity|]. simpl. destruct (N.eqb k' k); [reflexivity|exact IH].
-Qed.
-
-Lemma eol_norm_nonnil s : s <> [] -> eol_norm s <> [].
-Proof.
-  destruct s as [|c r]; [congruence|]. intros _. unfold eol_norm, splitjoin. simpl.
-  destruct (c =? 13)%N; [discriminate|]. destruct (c =? 10)%N; [discriminate|].
-  destruct (is_brk c); discriminate.
-Qed.
-
-Lemma class_ok_norm ps : class_ok ps = true -> class_ok (norm_props ps) = true.
-Proof.
-  intro H. destruct (class_ok_inv _ H) as (c0 & c & E). unfold class_ok.
-  rewrite norm_props_vmap, pget_vmap, E. simpl.
-  destruct (eol_norm (c0 :: c)) eqn:E2; [exfalso; revert E2; apply eol_norm_nonnil; discriminate|reflexivity].
-Qed.
-
-Lemma map_fst_vmap h ps : map fst (vmap h ps) = map fst ps.
-Proof. unfold vmap. rewrite map_map. reflexivity. Qed.
-
-Lemma props_ok_norm ps : props_ok ps = true -> props_ok (norm_props ps) = true.
-Proof.
-  unfold props_ok. rewrite !andb_true_iff, !forallb_forall. intros [ND L]. split.
-  - rewrite norm_props_vmap, map_fst_vmap. exact ND.
-  - intros kv Hkv. unfold norm_props in Hkv. apply in_map_iff in Hkv as (kv0 & <- & H0). simpl.
-    apply norm_val_legal, L, H0.
-Qed.
-
-Lemma class_str_norm ps : class_str ps = true -> class_str (norm_props ps) = true.
-Proof.
-  unfold class_str. rewrite !forallb_forall. intros H kv Hkv.
-  unfold norm_props in Hkv. apply in_map_iff in Hkv as (kv0 & <- & H0). specialize (H _ H0). destruct kv0 as [k v]. simpl in *. destruct v; simpl in *; exact H.
-Qed.
-
-Lemma norm_graph_wf g : graph_wf g = true -> graph_wf (norm_graph g) = true.
-Proof.
-  intro W. destruct (graph_wf_parts g W) as (ND & EC & HN & HE).
-  unfold graph_wf. rewrite !andb_true_iff, !forallb_forall.
-  assert (K : map fst (g_nodes (norm_graph g)) = map fst (g_nodes g)).
-  { simpl. rewrite map_map. reflexivity. }
-  split; [split; [split|]|].
-  - rewrite K. exact ND.
-  - intros e He. simpl in He. apply in_map_iff in He as ([[u v] ps] & <- & H0). rewrite K.
-    destruct (EC _ H0) as [A B]. simpl in *. rewrite A, B. reflexivity.
-  - intros n Hn. simpl in Hn. apply in_map_iff in Hn as (n0 & <- & H0). simpl.
-    destruct (HN _ H0) as (A & B & C). rewrite (props_ok_norm _ A), (class_ok_norm _ B), (class_str_norm _ C). reflexivity.
-  - intros e He. simpl in He. apply in_map_iff in He as ([[u v] ps] & <- & H0). simpl.
-    destruct (HE _ H0) as (A & B & C). simpl in *.
-    rewrite (props_ok_norm _ A), (class_ok_norm _ B), (class_str_norm _ C). reflexivity.
-Qed.
-
-Lemma vmap_id_on ps h : (forall kv, In kv ps -> h (snd kv) = snd kv) -> vmap h ps = ps.
-Proof.
-  induction ps as [|[k v] r IH]; intro H; [reflexivity|]. simpl. pose proof (H (k, v) (or_introl eq_refl)) as E. simpl in E. rewrite E.
-  rewrite IH; [reflexivity|]. intros kv Hkv. apply H. right. exact Hkv.
-Qed.
-
-Lemma map_id_on {A} (f : A -> A) l : (forall x, In x l -> f x = x) -> map f l = l.
-Proof.
-  induction l as [|x l IH]; intro H; [reflexivity|]. simpl. rewrite (H x (or_introl eq_refl)), IH; [reflexivity|].
-  intros y Hy. apply H. right. exact Hy.
-Qed.
-
-Lemma norm_props_id ps : props_legal ps -> props_no_cr ps = true -> norm_props ps = ps.
-Proof.
-  intros L C. apply vmap_id_on. intros kv Hkv. apply norm_val_id; [apply L, Hkv|].
-  unfold props_no_cr in C. rewrite forallb_forall in C. apply C, Hkv.
-Qed.
-
-Lemma norm_graph_id g : graph_wf g = true -> graph_no_cr g = true -> norm_graph g = g.
-Proof.
-  intros W C. destruct (graph_wf_legal g W) as [LN LE].
-  unfold graph_no_cr in C. rewrite andb_true_iff, !forallb_forall in C. destruct C as [CN CE].
-  unfold norm_graph. destruct g as [ns es]. simpl in *. f_equal.
-  - apply map_id_on. intros [k ps] Hn. simpl. f_equal. apply norm_props_id; [apply (LN _ Hn)|apply (CN _ Hn)].
-  - apply map_id_on. intros [[u v] ps] He. f_equal. apply norm_props_id; [apply (LE _ He)|apply (CE _ He)].
-Qed.
-
-Lemma norm_props_idem ps : norm_props (norm_props ps) = norm_props ps.
-Proof.
-  unfold norm_props. rewrite map_map. apply map_ext. intros [k v]. simpl. rewrite norm_val_idem. reflexivity.
-Qed.
-
-Lemma norm_graph_idem g : norm_graph (norm_graph g) = norm_graph g.
-Proof.
-  unfold norm_graph. simpl. rewrite !map_map. f_equal.
-  - apply map_ext. intros [k ps]. simpl. rewrite norm_props_idem. reflexivity.
-  - apply map_ext. intros [[u v] ps]. rewrite norm_props_idem. reflexivity.
-Qed.
-
-Lemma norm_graph_no_cr g : graph_no_cr (norm_graph g) = true.
-Proof.
-  unfold graph_no_cr. apply andb_true_iff. split; apply forallb_forall.
-  - intros n Hn. simpl in Hn. apply in_map_iff in Hn as (n0 & <- & _). simpl.
-    unfold props_no_cr. apply forallb_forall. intros kv Hkv. unfold norm_props in Hkv.
-    apply in_map_iff in Hkv as (kv0 & <- & _). simpl. destruct (snd kv0); simpl; auto. apply eol_norm_no_cr_out.
-  - intros e He. simpl in He. apply in_map_iff in He as ([[u v] ps] & <- & _). simpl.
-    unfold props_no_cr. apply forallb_forall. intros kv Hkv. unfold norm_props in Hkv.
-    apply in_map_iff in Hkv as (kv0 & <- & _). simpl. destruct (snd kv0); simpl; auto. apply eol_norm_no_cr_out.
-Qed.
-
 (* ---------- serialize_graph(GRAPHML) followed by read_graphml ---------- *)
 Theorem serialize_graphml_spec g : graph_wf g = true ->
   exists d, serialize_graphml g = Some d
-            /\ doc_spec node_lab edge_lab d (norm_graph g)
-            /\ read_graphml d = Some (norm_graph g)
+            /\ doc_spec node_lab edge_lab d g
+            /\ read_graphml d = Some g
             /\ labels_ok d = true.
 Proof.
   intro W.
   destruct (write_spec g (graph_wf_class_str g W)) as (S0 & ND & CT).
-  destruct (transport_in_spec _ _ S0 (graph_wf_legal g W)) as (d1 & E1 & K1 & S1).
-  pose proof (norm_graph_wf g W) as W'.
-  rewrite <- K1 in ND, CT.
-  destruct (to_neo4j_spec d1 _ ND CT S1 (graph_wf_class_ok _ W')) as (d2 & E2 & K2 & S2).
-  pose proof (transport_out_id _ _ S2 (graph_wf_legal _ W')) as E3.
+  pose proof (transport_in_id _ _ S0 (graph_wf_legal g W)) as E1.
+  destruct (to_neo4j_spec (write g) _ ND CT S0 (graph_wf_class_ok _ W)) as (d2 & E2 & K2 & S2).
+  pose proof (transport_out_id _ _ S2 (graph_wf_legal _ W)) as E3.
   exists d2. unfold serialize_graphml. rewrite E1, E2, E3.
   split; [reflexivity|]. split; [exact S2|]. split.
   - eapply read_graphml_spec. exact S2.
-  - eapply labels_ok_spec; [exact S2|apply graph_wf_class_ok, W'].
+  - eapply labels_ok_spec; [exact S2|apply graph_wf_class_ok, W].
 Qed.
 
 Theorem graphml_roundtrip g : graph_wf g = true ->
-  exists d, serialize_graphml g = Some d /\ read_graphml d = Some (norm_graph g).
-Proof. intro W. destruct (serialize_graphml_spec g W) as (d & A & _ & B & _). exists d. split; assumption. Qed.
-
-Theorem graphml_roundtrip_no_cr g : graph_wf g = true -> graph_no_cr g = true ->
   exists d, serialize_graphml g = Some d /\ read_graphml d = Some g.
-Proof.
-  intros W C. destruct (graphml_roundtrip g W) as (d & A & B). exists d. split; [exact A|].
-  rewrite B, (norm_graph_id g W C). reflexivity.
-Qed.
+Proof. intro W. destruct (serialize_graphml_spec g W) as (d & A & _ & B & _). exists d. split; assumption. Qed.
 
 Theorem graphml_label_markup g d : graph_wf g = true -> serialize_graphml g = Some d -> labels_ok d = true.
 Proof.
   intros W E. destruct (serialize_graphml_spec g W) as (d' & A & _ & _ & L). rewrite E in A. inversion A; subst. exact L.
 Qed.
 
-(* FULL STATEMENT (false): forall g, graph_wf g = true -> exists d, serialize_graphml g = Some d /\ read_graphml d = Some g *)
+(* the graph that used to lose its carriage return (before fix 10c1448) *)
 Definition cr_witness : nxg :=
   {| g_nodes := [(1%N, [(P_GraphID, PStr (S"g")); (P_NodeID, PStr (S"n")); (P_Class, PStr (S"NetworkNode"));
                         (10%N, PStr [97; 13; 98]%N)])];
      g_edges := [] |}.
-Theorem graphml_roundtrip_cr_refuted :
-  exists g, graph_wf g = true /\ forall d, serialize_graphml g = Some d -> read_graphml d <> Some g.
-Proof.
-  exists cr_witness. split; [vm_compute; reflexivity|].
-  intros d E. destruct (graphml_roundtrip cr_witness eq_refl) as (d' & A & B).
-  rewrite E in A. inversion A; subst. rewrite B. vm_compute. discriminate.
-Qed.
